@@ -16,6 +16,8 @@ vars == <<T, hist>>
 Tok(k, hp, e) == [t |-> "D", k |-> k, p |-> IF hp THEN <<"/p">> ELSE <<>>, a |-> "", e |-> e, b |-> "", c |-> ""]
 CloseTok == [t |-> "C", k |-> ")", p |-> <<>>, a |-> "", e |-> FALSE, b |-> "", c |-> ""]
 
+OpenTok == [t |-> "O", k |-> "(", p |-> <<>>, a |-> "", e |-> FALSE, b |-> "", c |-> ""]
+
 Init == T = EmptyTree /\ hist = <<>>
 
 Dir == /\ T.res = "ok"
@@ -30,10 +32,19 @@ CloseA == /\ T.res = "ok"
           /\ T' = TreeStep(T, CloseTok, Len(hist) + 1)
           /\ hist' = Append(hist, CloseTok)
 
-Next == Dir \/ CloseA
+\* an extra "(": where the previous token is a directive without its own "(", the text is the one of the flag e = TRUE
+\* (explored by Dir), so only the positions with nothing to open are taken
+OpenA == /\ T.res = "ok"
+         /\ (IF T.nodes = <<>> THEN TRUE ELSE T.nodes[Len(T.nodes)].tok # Len(hist) \/ T.nodes[Len(T.nodes)].e)
+         /\ T' = TreeStep(T, OpenTok, Len(hist) + 1)
+         /\ hist' = Append(hist, OpenTok)
+
+Next == Dir \/ CloseA \/ OpenA
 Spec == Init /\ [][Next]_vars
 
-View == <<ChainKE(T), T.res>>
+\* what "(" does depends on whether a directive has just been created and on its flag
+JustCreated == IF T.nodes = <<>> THEN FALSE ELSE T.nodes[Len(T.nodes)].tok = Len(hist)
+View == <<ChainKE(T), T.res, JustCreated>>
 
 \* ----- properties (M) -----
 DepthOK == Len(ChainKE(T)) <= 5
@@ -60,6 +71,13 @@ NoSilentClose ==
 CloseRule ==
   [][ hist' # hist /\ hist'[Len(hist')].t = "C" =>
         (T'.res = "noctx") = (Expl(ChainKE(T)) = <<>>) ]_vars
+
+\* "(" is refused exactly when there is no directive it could open: none has just been written, or the one just written
+\* has its "(" already; it never changes the chain of open contexts.
+OpenRule ==
+  [][ hist' # hist /\ hist'[Len(hist')].t = "O" =>
+        /\ T'.res = "noopen" /\ T'.errTok = Len(hist')
+        /\ ChainKE(T') = ChainKE(T) ]_vars
 
 \* ----- emission (G) -----
 Emit == PrintT("E " \o ToJson([h |-> hist', r |-> T'.res, s |-> ChainKE(T'),
